@@ -30,7 +30,7 @@ CONFIG = dict(
     min_nontrivial={"quick": 1500, "thorough": 50000},
     nshards={"quick": 8, "thorough": 16},
     timeout={"quick": 600, "thorough": 3600},
-    required_counters=("steps", "probes", "inactive_states_probed", "long_lived_probes", "snapshots_compared", "static_answers_compared"),
+    required_counters=("steps", "probes", "shared_stream_probes", "inactive_states_probed", "long_lived_probes", "snapshots_compared", "static_answers_compared"),
 )
 
 ADDSETS = {
@@ -115,6 +115,13 @@ def run_history(ctx, mods, base, static0, hist):
     current = None     # additions of the active activation; None = environment not active
     w = {"history": hist}
     steps = []
+    # one long-lived stream object holding all probes one after the other (a checkpoint file with several pickles kept
+    # open across re-activations): hooked pickle.load reads the probe at its offset from this same object at every step
+    offs, blob = {}, b""
+    for g_, d_ in PROBES.items():
+        offs[g_] = len(blob)
+        blob += d_
+    shared = io.BytesIO(blob)
 
     def allowed_by(adds, g):
         m, n = g.rsplit(".", 1)
@@ -134,6 +141,13 @@ def run_history(ctx, mods, base, static0, hist):
                 inst_adds = ADDSETS[op[5:]]
             steps.append(op)
             agg.count("steps")
+            shared_got = {}
+            if current is not None:
+                # (0) first of all, before anything else goes through the hooks in this step: every probe read from the
+                # long-lived stream object (judged below, together with the other deliveries)
+                for g in PROBES:
+                    shared.seek(offs[g])
+                    shared_got[g] = outcome(lambda: pickle.load(shared), U)
             for g, data in PROBES.items():
                 # (1) an instance constructed with the step's additions (or a fresh one without any)
                 adds_i = inst_adds if inst_adds is not None else []
@@ -149,13 +163,21 @@ def run_history(ctx, mods, base, static0, hist):
                 if current is not None:
                     got = outcome(lambda: pickle.loads(data), U)
                     got2 = outcome(lambda: _pickle.load(io.BytesIO(data)), U)
+                    got3 = shared_got[g]
                     want = "allowed" if allowed_by(current, g) else "blocked"
-                    agg.count("probes", 2)
-                    if got != want or got2 != want:
-                        agg.violation(f"active-allowlist:{'leak' if 'allowed' in (got, got2) else 'over-blocked'}",
-                                      f"environment active with additions {current}: {g} is {got}/{got2}, model says {want}",
+                    agg.count("probes", 3)
+                    agg.count("shared_stream_probes")
+                    if got != want or got2 != want or got3 != want:
+                        agg.violation(f"active-allowlist:{'leak' if 'allowed' in (got, got2, got3) else 'over-blocked'}"
+                                      + (":long-lived-stream" if got == got2 == want else ""),
+                                      f"environment active with additions {current}: {g} is {got}/{got2}/{got3} (pickle.loads / "
+                                      f"_pickle.load of a fresh stream / pickle.load from a stream object in use since the first step), model says {want}",
                                       dict(w, steps=list(steps), probe=g))
                         return
+            if current is not None:
+                # the step ends with a load from the long-lived stream that every activation permits
+                shared.seek(offs["collections.OrderedDict"])
+                outcome(lambda: pickle.load(shared), U)
             if current is None:
                 # no activation is current: if something still mediates the module functions (a probe that no
                 # activation ever allowed is blocked), it must not be carrying anybody's additions
